@@ -107,8 +107,23 @@ def decode_shard(path: Path, fmt: str, comp: str, attrs: list[dict]) -> list[dic
     raise ValueError(fmt)
 
 
+_IDS_CACHE: dict = {}
+
+
 def shard_ids(path: Path, fmt: str, comp: str, attrs: list[dict]) -> list[int]:
-    return [int(np.asarray(row["id"]).reshape(-1)[0]) for row in decode_shard(path, fmt, comp, attrs)]
+    """ids stored in a shard file (content-addressed memo: unchanged files are not decoded twice)."""
+    try:
+        key = (hashlib.sha256(Path(path).read_bytes()).hexdigest(), fmt, comp, json.dumps(attrs, sort_keys=True, default=str))
+    except OSError:
+        key = None
+    if key is not None and key in _IDS_CACHE:
+        return list(_IDS_CACHE[key])
+    ids = [int(np.asarray(row["id"]).reshape(-1)[0]) for row in decode_shard(path, fmt, comp, attrs)]
+    if key is not None:
+        if len(_IDS_CACHE) > 5000:
+            _IDS_CACHE.clear()
+        _IDS_CACHE[key] = tuple(ids)
+    return ids
 
 
 @dataclass
